@@ -737,14 +737,11 @@ def compute_deviation(surveys: np.ndarray) -> np.ndarray:
             "Cannot compute deviation coordinates without `survey` attribute."
         )
 
-    lengths = surveys[1:, 0] - surveys[:-1, 0]
-
     deviation = []
     for component in [deviation_x, deviation_y, deviation_z]:
         dl_in = component(surveys[:-1, 1], surveys[:-1, 2])
         dl_out = component(surveys[1:, 1], surveys[1:, 2])
-        ddl = np.divide(dl_out - dl_in, lengths, where=lengths != 0)
-        deviation += [dl_in + lengths * ddl / 2.0]
+        deviation += [(dl_in + dl_out) / 2.0]
 
     return np.vstack(deviation).T
 
